@@ -137,8 +137,9 @@ def prepare_sched_binary(ctx):
 class Sched:
     """K2/monitors: real code under the cooperative scheduler; a failing schedule is the replay"""
     kind = "K2"
-    def __init__(self, scenario, quick, thorough, exhaustive_limit=0, label=None, conformance=None, traces=(150, 3000)):
+    def __init__(self, scenario, quick, thorough, exhaustive_limit=0, label=None, conformance=None, traces=(150, 3000), only=None):
         self.conformance, self.ntraces = conformance, traces   # K2: Lean trace-conformance suite for this scenario
+        self.only = only      # a scenario shared by several properties prefixes its problems "Cnn:"; keep this property's
         self.scenario, self.quick, self.thorough, self.exh = scenario, quick, thorough, exhaustive_limit
         self.name = label or ("sched-" + scenario)
     def _run(self, binp, args):
@@ -147,8 +148,11 @@ class Sched:
         for l in out.splitlines():
             l = l.strip()
             if l.startswith("{"):
-                try: lines.append(json.loads(l))
-                except ValueError: pass
+                try: rec = json.loads(l)
+                except ValueError: continue
+                if self.only and rec.get("problems"):
+                    rec["problems"] = [p for p in rec["problems"] if p.startswith(self.only) or not (len(p) > 3 and p[0] == "C" and p[3] == ":")]
+                lines.append(rec)
         if rc != 0 and not lines:
             raise RuntimeError("vschedrun failed: " + out[-1500:])
         return lines
